@@ -5,7 +5,7 @@
    Spec/CrcSpec.v instantiated with the catalogue parameters regenerated from the Rust source.
    Statements only (proofs: Proofs/SpecProofs.v). *)
 From BP7 Require Import Base.Prelude Gen.Consts Cbor.Item Spec.CrcSpec Spec.Rfc9171.
-From BP7 Require Import Model.Types Model.Encode Model.Decode Model.Wf Proofs.CodecProofs Proofs.SpecProofs.
+From BP7 Require Import Model.Types Model.Encode Model.Decode Model.Wf Model.Hex Proofs.CodecProofs Proofs.SpecProofs Proofs.TableProofs.
 
 (* crc_on_wire code items stored bytes:
      code 0: stored = CrcNo and bytes = ser (Arr items)
@@ -34,7 +34,14 @@ Qed.
 Example C04_check_values : crc16_x25 check_msg = 36974 /\ crc32c check_msg = 3808858755.
 Proof. vm_compute. split; reflexivity. Qed.
 
+(* the exhaustive tie to the crc crate: the two checksum functions src/crc.rs selects, evaluated by the compiled crate on every
+   one-byte message (tables regenerated on every run), are the bitwise catalogue CRCs these theorems are stated with *)
+Theorem C04_tie_crc_single_bytes : forall b, b < 256 ->
+  code_crc16 b = hexify (be_enc 2 (crc16_x25 [n2b b])) /\ code_crc32 b = hexify (be_enc 4 (crc32c [n2b b])).
+Proof. exact tie_crc_bytes. Qed.
+
 Print Assumptions C04_primary.
 Print Assumptions C04_canonical.
 Print Assumptions C04_bundle_layout.
 Print Assumptions C04_fresh_passes.
+Print Assumptions C04_tie_crc_single_bytes.
